@@ -17,7 +17,54 @@ CT_SRCS = [os.path.join(HERE, f) for f in ("calltime_main.cpp", "calltime_before
 ASAN_ENV = {"ASAN_OPTIONS": vlib.ASAN_ENV + ":max_allocation_size_mb=256"}
 
 
-TAGS = {"san": "c13", "fast": "c13-fast", "uchar": "c13-uchar", "ct": "c13-ct"}
+TAGS = {"san": "c13", "fast": "c13-fast", "uchar": "c13-uchar", "ct": "c13-ct", "huge": "c13-huge"}
+# HUGE part: lengths at which `int` / `unsigned` length arithmetic wraps; one process per list (peak memory: input + encoding + decoding
+# of the largest length of the list, about 3.4 x that length)
+HUGE_LENS = {
+    "quick": [[2 ** 31]],
+    "thorough": [[2 ** 31 - 1, 2 ** 31, 2 ** 31 + 1, 2 ** 31 + 2, 2 ** 31 + 3], [2 ** 32 - 1, 2 ** 32, 2 ** 32 + 1], [2 ** 32 + 2, 2 ** 32 + 3]],
+}
+
+# TARGET-ISA dimension: the predefined macros of the instruction-set options a client compiles with (__SSSE3__, __SSE4_2__, __AVX2__,
+# __BMI2__, __AVX512*__ ...) are visible to a header-only library, which may select another code path under them.  The same
+# harness is therefore built once per option set (all sanitizers on, like the main build) and a complete sub-plan is run in each
+# build.  (name, compiler options, /proc/cpuinfo flags the machine must have to RUN the build; a set this CPU cannot run is a
+# reported capability gap, not a pass).  "native" is what the repository's own test CMake uses.
+ISA_SETS = [
+    ("native", ["-march=native"], []),
+    ("v3", ["-march=x86-64-v3"], ["avx2", "bmi2", "fma", "f16c", "movbe"]),
+    ("bmi2", ["-mbmi", "-mbmi2"], ["bmi1", "bmi2"]),
+    ("avx2", ["-mavx2"], ["avx2"]),
+    ("sse42", ["-msse4.2", "-mpopcnt"], ["sse4_2", "popcnt"]),
+    ("v2", ["-march=x86-64-v2"], ["sse4_2", "ssse3", "popcnt"]),
+    ("ssse3", ["-mssse3"], ["ssse3"]),
+    ("v4", ["-march=x86-64-v4"], ["avx512f", "avx512bw", "avx512vl", "avx512dq", "avx512cd"]),
+    ("avx512vbmi", ["-mavx512f", "-mavx512bw", "-mavx512vl", "-mavx512vbmi"], ["avx512f", "avx512bw", "avx512vl", "avx512vbmi"]),
+]
+ISA_QUICK = ("native", "v3", "bmi2", "avx2", "sse42")
+for _n, _f, _r in ISA_SETS:
+    TAGS["isa:" + _n] = "c13-isa-" + _n
+
+
+def cpu_flags():
+    try:
+        for line in open("/proc/cpuinfo"):
+            if line.startswith("flags"):
+                return set(line.split(":", 1)[1].split())
+    except OSError:
+        pass
+    return set()
+
+
+def isa_kinds(tier):
+    """(runnable kinds of this tier, [names that this machine cannot run])"""
+    have = cpu_flags()
+    run_, gap = [], []
+    for n, f, r in ISA_SETS:
+        if tier != "thorough" and n not in ISA_QUICK:
+            continue
+        (run_ if all(x in have for x in r) else gap).append(n)
+    return ["isa:" + n for n in run_], gap
 
 
 def build(kind="san"):
@@ -25,9 +72,15 @@ def build(kind="san"):
     if kind == "ct":
         # g++ links the objects in command-line order = the order of CT_SRCS; same flags as the main sanitizer build
         return vlib.compile_cxx(CT_SRCS[0], "c13ct", std="c++14", opt="-O2", san="asan", defines=["_GLIBCXX_ASSERTIONS"], extra_srcs=CT_SRCS[1:])
+    if kind == "huge":
+        # HUGE part (huge.cpp): lengths around 2^31 and 2^32, several GiB per string: no sanitizers
+        return vlib.compile_cxx(os.path.join(HERE, "huge.cpp"), "c13huge", std="c++14", opt="-O2", san="none")
     if kind == "fast":
         # same source, no sanitizers: for the two 2^32 families of the thorough tier and the power-of-two windows above 2^21 (quick) / 2^23 (thorough)
         return vlib.compile_cxx(SRC, "c13fast", std="c++14", opt="-O2", san="none", defines=["_GLIBCXX_ASSERTIONS"])
+    if kind.startswith("isa:"):
+        flags = [f for n, f, r in ISA_SETS if n == kind[4:]][0]
+        return vlib.compile_cxx(SRC, "c13isa-" + kind[4:], std="c++14", opt="-O2", san="asan", defines=["_GLIBCXX_ASSERTIONS"], flags=flags)
     if kind == "uchar":
         # CONFIGURATION: plain char unsigned (as on ARM/PowerPC Linux), all sanitizers on
         return vlib.compile_cxx(SRC, "c13uchar", std="c++14", opt="-O2", san="asan", defines=["_GLIBCXX_ASSERTIONS"], flags=["-funsigned-char"])
@@ -193,6 +246,15 @@ def plan(tier):
     if thorough:
         P += [("uchar", j, 0) for j in shards("dec", "full:3", 256 ** 3, 16)]
         P += [("uchar", j, 0) for j in shards("dec", "dec13:7", 13 ** 7, 16)]
+    # ---- CONFIGURATION: the same harness built for every target-ISA option set (see ISA_SETS) -----------------------------------
+    for kind in isa_kinds(tier)[0]:
+        P.append((kind, small("dec", [("full:0", 1), ("full:1", 256), ("full:2", 256 ** 2)]) + small("enc", [("full:0", 1), ("full:1", 256), ("full:2", 256 ** 2)]), 0))
+        P.append((kind, small("dec", [(f, c) for f, c in dec_b]) + small("enc", [("enc6:5", 6 ** 5), ("long", 58 * 36 + 256)]), 0))
+        P += sweep_plan(kind, 3000 if thorough else 1500, 1, -1)
+        if thorough:
+            P += [(kind, j, 0) for j in shards("dec", "dec13:6", 13 ** 6, 4)]
+            P += [(kind, j, 0) for j in shards("enc", "full:3", 256 ** 3, 16)]
+            P += [(kind, j, 0) for j in shards("dec", "full:3", 256 ** 3, 16)]
     if thorough:
         P += [("san", j, 0) for j in shards("dec", "dec13:7", 13 ** 7, 16)]
         P += [("san", j, 0) for j in shards("dec", "dec13:8", 13 ** 8, 96)]
@@ -306,7 +368,10 @@ def reference_selfcheck(ctx, binary):
 def run(ctx):
     thorough = ctx.tier == "thorough"
     bins = {}
-    kinds = ["san", "uchar", "fast", "ct"]
+    isa_run, isa_gap = isa_kinds(ctx.tier)
+    kinds = ["san", "uchar", "fast", "ct", "huge"] + isa_run
+    ctx.note("target-ISA builds of the harness (option sets whose predefined macros a header may test): %s; sets this machine cannot run (capability gap, not judged): %s"
+             % (", ".join("%s = %s" % (k[4:], " ".join([f for n, f, r in ISA_SETS if n == k[4:]][0])) for k in isa_run), ", ".join(isa_gap) or "none"))
     for k, b in zip(kinds, vlib.parallel([(lambda k=k: build(k)) for k in kinds])):
         bins[k] = b
     ctenv = ct_env()
@@ -329,6 +394,8 @@ def run(ctx):
             n = sum(r["v"] for r in recs if r.get("t") == "stat" and r.get("k") == "evaluations")
             if kind == "uchar":
                 ctx.stat("cases_in_unsigned_char_build", n)
+            if kind.startswith("isa:"):
+                ctx.stat("cases_in_target_isa_builds", n)
             if jobs and jobs[0][2].startswith("sweep"):
                 ctx.stat("length_sweep_cases", n)
             if jobs and jobs[0][2].startswith("pow2"):
@@ -345,7 +412,20 @@ def run(ctx):
             ctx.run_harness(bins["ct"], ["--calltime", setname, masks, "--shard", str(i), str(n)], tag=TAGS["ct"], env=ctenv, timeout=budget_end - time.time() + 300)
         return f
 
+    def hugejob(lens):
+        def f():
+            left = budget_end - time.time()
+            if left < 60:
+                ctx.cap("not started before the deadline: huge lengths %s" % lens)
+                return
+            args = []
+            for L in lens:
+                args += ["--len", str(L)]
+            ctx.run_harness(bins["huge"], args, tag=TAGS["huge"], timeout=left + 900)
+        return f
+
     todo = [job(k, j, s) for k, j, s in plan(ctx.tier)]
+    todo = [hugejob(l) for l in HUGE_LENS[ctx.tier]] + todo
     npow2 = len(pow2_plan(ctx.tier))
     ct = [ctjob(sn, ml, i, n) for sn, ml, n in calltime_plan(ctx.tier) for i in range(n)]
     vlib.parallel(todo[:npow2] + ct + todo[npow2:], workers=min(vlib.NCPU, 16))
@@ -366,6 +446,12 @@ def run(ctx):
     t = thorough
     ctx.rule = (
         "Each case is one input string pushed through the real xtl code in a forked child. "
+        "HUGE lengths (huge.cpp, -O2 without sanitizers): one input of exactly 2^31 bytes (thorough: every length 2^31-1..2^31+3 and 2^32-1..2^32+3): base64encode compared character by "
+        "character with a streaming RFC 4648 encoder, base64decode of the padded and of the unpadded reference text compared with the input; a length the machine cannot allocate is a reported cap. "
+        "TARGET-ISA builds: the harness is additionally built once per instruction-set option set a client may compile with (-march=native, x86-64-v2/v3/v4, -mbmi2, -mavx2, -msse4.2, "
+        "-mssse3, AVX-512 VBMI; quick: native, v3, bmi2, avx2, sse4.2) and in each build ALL strings of length 0..2 (encode and decode), the structured decode and encode families and "
+        "every length 0..1500 (thorough 3000; thorough also all 3-byte strings) are enumerated against the same references: a header-only library sees __BMI2__/__AVX2__/... and may "
+        "take another path under them. "
         "ENCODE+ROUND-TRIP cases (s -> base64encode(s) compared byte for byte with an independent RFC 4648 encoder, then base64decode of that text compared with s): "
         "ALL strings of length 0..%s over all 256 byte values; all strings of length %s over {00,01,7F,80,FF,'A'}; 2088 alternating strings a,b,a,b.. of every length 7..64 "
         "over the same 6x6 bytes and the 256 rotations of 00..FF. "
